@@ -133,7 +133,8 @@ class LoopSpec:
     """Inductive invariant for one loop of a function (by ordinal, in source order)."""
 
     def __init__(self, invariant: Callable = None, modifies: List[str] = None, havoc: Callable = None,
-                 unroll: bool = False, name: str = "", decreases: Callable = None, skip: List[str] = None):
+                 unroll: bool = False, name: str = "", decreases: Callable = None, skip: List[str] = None,
+                 on_exit: Callable = None):
         self.invariant = invariant  # invariant(interp, env, it) -> list[(name, z3 bool)]
         self.modifies = modifies    # extra names to havoc (beyond syntactically assigned locals)
         self.havoc = havoc          # havoc(interp, env, it): custom havoc of heap/ghost state
@@ -141,6 +142,7 @@ class LoopSpec:
         self.name = name
         self.decreases = decreases
         self.skip = skip or []      # names the custom havoc takes care of
+        self.on_exit = on_exit      # on_exit(interp, env, it): facts that hold when the loop completed (rule ALL-VISITED)
 
 
 class Registry:
@@ -1031,6 +1033,10 @@ class Interp:
         kn = _kindname(recv)
         h = self.reg.methods.get((kn, name))
         if h is None:
+            pytype = {"str": str, "bytes": bytes, "int": int, "bool": bool, "float": float, "list": list, "dict": dict,
+                      "set": set, "tuple": tuple}.get(kn)
+            if pytype is not None and not hasattr(pytype, name):
+                raise PyExc("AttributeError", f"'{kn}' object has no attribute '{name}'")
             raise Unsupported(f"method {kn}.{name} not modelled")
         return h(self, recv, args, kwargs)
 
@@ -1456,6 +1462,8 @@ class Interp:
                             self.exec_block(h.body, env)
                         finally:
                             self.exc_stack.pop()
+                            if h.name:
+                                env.vars.pop(h.name, None)   # Python unbinds the handler's name at the end of the clause
                         break
                 if not handled:
                     raise
@@ -1522,11 +1530,18 @@ class Interp:
         if not specs:
             return None
         mi, fn = self.repo.function(ref)
+        # robust selector first: the source text of the iterable / loop test
+        try:
+            key = "iter:" + ast.unparse(node.iter if isinstance(node, ast.For) else node.test)
+        except Exception:
+            key = None
+        if key is not None and key in specs:
+            return specs[key]
         ordinal = 0
         for sub in ast.walk(fn):
             if isinstance(sub, (ast.For, ast.While)):
                 if sub is node:
-                    return specs.get(ordinal)
+                    return specs.get(ordinal) or specs.get("*")
                 ordinal += 1
         return None
 
@@ -1553,15 +1568,31 @@ class Interp:
             if n > bound:
                 raise Unsupported(f"while loop at line {node.lineno} needs an invariant (unrolled {bound} times)")
 
-    def assigned_names(self, stmts) -> List[str]:
+    _MUTATORS = {"append", "add", "extend", "update", "insert", "pop", "remove", "discard", "clear", "setdefault", "sort"}
+
+    def assigned_names(self, stmts, spec=None) -> List[str]:
+        """names (re)bound or mutated in place by the statements: assignment targets, receivers of mutating method
+        calls, subscript-store / del targets.  Attribute stores on objects need a custom havoc (checked here)."""
         out = []
+
+        def add(n):
+            if n not in out:
+                out.append(n)
         for s in stmts:
             for sub in ast.walk(s):
                 if isinstance(sub, ast.Name) and isinstance(sub.ctx, ast.Store):
-                    if sub.id not in out:
-                        out.append(sub.id)
-                elif isinstance(sub, ast.ExceptHandler) and sub.name and sub.name not in out:
-                    out.append(sub.name)
+                    add(sub.id)
+                elif isinstance(sub, ast.ExceptHandler) and sub.name:
+                    add(sub.name)
+                elif isinstance(sub, ast.Call) and isinstance(sub.func, ast.Attribute) and sub.func.attr in self._MUTATORS \
+                        and isinstance(sub.func.value, ast.Name):
+                    add(sub.func.value.id)
+                elif isinstance(sub, ast.Subscript) and isinstance(sub.ctx, (ast.Store, ast.Del)) and isinstance(sub.value, ast.Name):
+                    add(sub.value.id)
+                elif isinstance(sub, ast.Attribute) and isinstance(sub.ctx, ast.Store):
+                    if spec is not None and spec.havoc is None:
+                        raise Unsupported(f"loop body stores to attribute .{sub.attr} (line {sub.lineno}); "
+                                          f"the loop spec needs a custom havoc for object state")
         return out
 
     def havoc_value(self, old, name):
@@ -1599,7 +1630,7 @@ class Interp:
         """assert invariant on entry; havoc; assume invariant."""
         for nm, inv in spec.invariant(self, env, it) if spec.invariant else []:
             self.ctx.check(f"loop{node.lineno}:{spec.name}:inv-entry:{nm}", inv)
-        names = self.assigned_names(node.body) + (spec.modifies or [])
+        names = self.assigned_names(node.body, spec) + (spec.modifies or [])
         if isinstance(node, ast.For):
             for sub in ast.walk(node.target):
                 if isinstance(sub, ast.Name) and sub.id in names:
@@ -1684,7 +1715,7 @@ class Interp:
         for nm, inv in spec.invariant(self, env, it) if spec.invariant else []:
             c.check(f"loop{node.lineno}:{spec.name}:inv-entry:{nm}", inv)
         # havoc
-        names = self.assigned_names(node.body) + (spec.modifies or [])
+        names = self.assigned_names(node.body, spec) + (spec.modifies or [])
         for sub in ast.walk(node.target):
             if isinstance(sub, ast.Name) and sub.id in names:
                 names.remove(sub.id)
@@ -1716,6 +1747,8 @@ class Interp:
             more = c.decide(it["done"] != itv.z, "for-more")
         if not more:
             it["final"] = True
+            if getattr(spec, "on_exit", None):
+                spec.on_exit(self, env, it)
             self.exec_block(node.orelse, env)
             return
         if isinstance(itv, SSeq):
@@ -1723,6 +1756,8 @@ class Interp:
         elif "symiter" in it:
             item = itv.fields["mk"](self)
             it["elem"] = item
+            for pred in itv.fields.get("all_satisfy", []):
+                c.assume(pred(self, item))
         elif "lo" in it:
             item = SInt(it["i"])
         elif "items" in it:
@@ -1745,10 +1780,11 @@ class Interp:
             return
         except ContinueSig:
             pass
+        it["after_body"] = True
         if "i" in it:
             it["i"] = it["i"] + 1
         elif "symiter" in it:
-            it["after_body"] = True
+            pass
         else:
             it["done"] = z3.SetAdd(it["done"], it["elem"])
         for nm, inv in spec.invariant(self, env, it) if spec.invariant else []:
